@@ -39,6 +39,8 @@ def grid(quick):
         g.append(("real_pso|evals", {"num_particles": 3, "start_weight": 0.9, "end_weight": 0.4, "c_one": 0.5, "c_two": 0.5, "v_max": 0.1 * w}, pr, (3, 3)))
         # a log rule "only the first 4 passes" (its trigger is a LessThanN on the same counter as the loop's)
         g.append(("real_pso|log4", {"num_particles": 3, "start_weight": 0.9, "end_weight": 0.4, "c_one": 0.5, "c_two": 0.5, "v_max": 0.1 * w}, pr, (3, 3)))
+        # (C18 only, see PSO_VARIANTS) a second swarm under identifier A, a scoped inner loop in the repair step, a swarm
+        # started after another phase filled the best-individual memory
         # no inertia at all: particles sitting on their own and the global best come to rest (zero velocity)
         g.append(("real_pso", {"num_particles": 4, "start_weight": 0.0, "end_weight": 0.0, "c_one": 2.0, "c_two": 2.0, "v_max": 0.25 * w}, pr, (4, 4)))
         for t0 in ([1.0] if quick else [1e-9, 1.0, 1e9]):
@@ -97,6 +99,9 @@ def grid(quick):
                                          "decay_coefficient": 1.0}, pr, (ants + 1, ants + 1)))
                 g.append(("max_min_ant_system", {"num_ants": ants, "alpha": a, "beta": b, "default_pheromones": 0.5, "evaporation": 0.1,
                                                  "max_pheromones": 1.0, "min_pheromones": 0.1}, pr, (ants + 1, ants + 1)))
+            # uniform weights: neither trails nor distances count
+            g.append(("ant_system", {"num_ants": ants, "alpha": 0.0, "beta": 0.0, "default_pheromones": 1.0, "evaporation": 0.1,
+                                     "decay_coefficient": 1.0}, pr, (ants + 1, ants + 1)))
             g.append(("ant_system", {"num_ants": ants, "alpha": 0.0, "beta": 2.0, "default_pheromones": 1.0, "evaporation": 1.0,
                                      "decay_coefficient": 1.0}, pr, (ants + 1, ants + 1)))
             for dflt in (5.0, 0.001):
@@ -117,6 +122,20 @@ def grid(quick):
 # the others do arithmetic on objective values (fitness-proportional seeds, energies), for which the
 # properties do not state what infinite values should do
 INF_OK = {"real_pso", "real_pso|evals", "real_pso|log4", "real_ga", "real_es", "real_de", "real_sa", "real_ls", "real_rs", "real_rw"}
+
+
+# harness-built PSO configurations for C18 (not shipped templates: not part of the C16 / C05.. sweeps)
+def pso_variant_specs(seeds, iters):
+    out = []
+    for prob in (REAL(2), REAL(3, 1, -4.0, 12.0)):
+        w = prob["hi"] - prob["lo"]
+        for t in ("real_pso@AG", "real_pso|scoped", "real_pso|phase2"):
+            for n in iters:
+                for s in seeds:
+                    out.append({"run": len(out), "template": t, "params": {"num_particles": 4, "start_weight": 0.9, "end_weight": 0.4,
+                                "c_one": 0.0 if t.endswith("AG") else 0.5, "c_two": 0.0 if t.endswith("AG") else 0.5, "v_max": 0.2 * w},
+                                "n": n, "seed": s, "eval": "seq", "prob": prob, "size_lo": 0, "size_hi": 10 ** 6})
+    return out
 
 
 def specs(quick, seeds, iters):
